@@ -105,7 +105,8 @@ def correspondence(ctx):
 
 
 # ------------------------------------------------------------------------------------------
-OPS = ["resolve", "optimize", "assign", "assign", "rnd_resolve", "rnd_optimize", "assign_original"]
+OPS = ["resolve", "optimize", "assign", "assign", "rnd_resolve", "rnd_optimize", "assign_original", "exh_resolve",
+       "exh_optimize", "resolve_locally"]
 
 
 class _Timeout(BaseException):
@@ -223,6 +224,11 @@ def run_history(desc, ops, out):
                 p.resolve_constraints_by_random_mutations()
             elif op[0] == "rnd_optimize":
                 p.optimize_by_random_mutations()
+            elif op[0] in ("exh_resolve", "exh_optimize", "resolve_locally"):
+                # the direct searches on the whole problem, when its space can be enumerated
+                if p.mutation_space.space_size <= 3000:
+                    {"exh_resolve": p.resolve_constraints_by_exhaustive_search, "exh_optimize": p.optimize_by_exhaustive_search,
+                     "resolve_locally": p.resolve_constraints_locally}[op[0]]()
             elif op[0] == "assign":
                 p.sequence = op[1]
             elif op[0] == "assign_original":
@@ -248,6 +254,11 @@ def rand_history(rng):
         desc["circular"] = True
         desc["constraints"] = [c for c in desc["constraints"] if c["kind"] in ("pattern", "gcwin", "keep", "keep_idx", "keep_edits")]
         desc["objectives"] = [o for o in desc["objectives"] if o["kind"] in ("gc_obj", "pattern_obj", "keep_obj", "change_obj")]
+    if not desc.get("circular") and rng.random() < 0.3:
+        # most positions frozen: the whole space can be enumerated by the direct exhaustive searches
+        n_ = len(desc["sequence"])
+        free = set(rng.sample(range(n_), rng.randint(1, 4)))
+        desc["constraints"].append(dict(kind="keep_idx", indices=[i for i in range(n_) if i not in free]))
     ops = []
     for _ in range(rng.randint(1, 5)):
         k = rng.choice(OPS if not desc.get("circular") else ["resolve", "optimize", "assign", "assign_original"])
